@@ -273,7 +273,8 @@ template<class GraphImpl>
 void TreeGraphImpl<GraphImpl>::fillListOfLeaves_(Graph::NodeId startingNode, std::vector<Graph::NodeId>& foundLeaves) const
 {
   const std::vector<Graph::NodeId> sons = getSons(startingNode);
-  if (sons.size() > 1)
+  // a node with a single son is not a leaf of a rooted tree
+  if (!isLeaf(startingNode))
   {
     for (std::vector<Graph::NodeId>::const_iterator currNeighbor = sons.begin(); currNeighbor != sons.end(); currNeighbor++)
     {
